@@ -236,6 +236,26 @@ def check_context():
                             fails.append((f"known-prefix-rejected/{cname}", f"{where}: {type(exc).__name__}"))
                         elif o.prefix != want or o.identifier != ident:
                             fails.append((f"prefix-not-standardised-through-context/{cname}", f"{where}: got ({o.prefix!r}, {o.identifier!r}), canonical prefix {want!r}"))
+        # the context is the live converter: a prefix rejected earlier is accepted once the converter knows it
+        live = Converter([Record(prefix="a", uri_prefix="http://a/")])
+        for cname in ("Reference", "NamableReference"):
+            C = CLASSES[cname]
+            for newp, how in (("late1", "add_prefix"), ("late2", "merge")):
+                n += 1
+                e1 = raises(C.model_validate, {"prefix": newp, "identifier": "1"}, context=live)
+                if how == "add_prefix":
+                    live.add_prefix(newp, f"http://{newp}/")
+                    want2 = newp
+                else:
+                    live.add_record(Record(prefix=newp, uri_prefix="http://a/"), merge=True)
+                    want2 = "a"
+                try:
+                    o = C.model_validate({"prefix": newp, "identifier": "1"}, context=live)
+                    if not isinstance(e1, ValidationError) or o.prefix != want2:
+                        fails.append((f"context-validation-wrong-after-converter-changed/{cname}", f"{newp!r} ({how}): before -> {e1!r}, after -> {o!r}"))
+                except Exception as e:  # noqa
+                    fails.append((f"context-validation-stale-after-converter-changed/{cname}", f"{newp!r} was rejected, then added to the converter ({how}), and is still rejected: {type(e).__name__}"))
+            live = Converter([Record(prefix="a", uri_prefix="http://a/")])
         # without context nothing is standardised
         o = Reference.model_validate({"prefix": "alias", "identifier": "1"})
         if o.prefix != "alias":
@@ -243,7 +263,7 @@ def check_context():
     return fails, n
 
 
-FILE_REFS = [("a", "1"), ("", ""), ("é", "x:y"), ("a b", '"'), ("A", "\t"), ("a", "\n"), ("a.b", "\r"), ("a", " s ")]
+FILE_REFS = [("a", "1"), ("", ""), ("é", "x:y"), ("a b", '"'), ("A", "\t"), ("a", "\n"), ("a.b", "\r"), ("a", " s "), ("#p", "1"), ("a", "x\n#y")]
 
 
 def check_files(idx_a):
@@ -271,6 +291,18 @@ def check_files(idx_a):
         back = read_triples(path, reference_cls=NamableReference)
         if [(t.subject.pair, t.predicate.pair, t.object.pair) for t in back] != [(t.subject.pair, t.predicate.pair, t.object.pair) for t in triples]:
             fails.append((f"triples-file-round-trip-differs/{ext}/reference_cls", "NamableReference"))
+    # custom headers (also ones that look like comments or need quoting)
+    for header in (["#subject", "predicate", "object"], ['s"x', "p\ty", "o"], ["", "", ""]):
+        n += 1
+        path = os.path.join(tmpdir(), f"{os.getpid()}.h.tsv")
+        try:
+            write_triples(triples[:3], path, header=header)
+            back = read_triples(path)
+        except Exception as e:  # noqa
+            fails.append(("triples-file-round-trip-raises/custom-header", f"header {header}: {type(e).__name__}: {str(e)[:80]}"))
+            continue
+        if back != triples[:3]:
+            fails.append(("triples-file-round-trip-differs/custom-header", f"header {header}: wrote 3 triples, read back {len(back)}"))
     t = Triple.from_curies("a:1", ":x", "é:x:y")
     if (t.subject.pair, t.predicate.pair, t.object.pair) != (("a", "1"), ("", "x"), ("é", "x:y")):
         fails.append(("Triple.from_curies-differs", repr(t)))
